@@ -130,6 +130,8 @@ pub fn run(args: &Args, prefix: &str) -> i32 {
                 // no FIN: nothing but the data itself can wake the reader
                 ("uni-open-ended", [vec![OpenUni, Write { slot: 0, n: 2 }, Write { slot: 0, n: 2 }, Flush { slot: 0 }], vec![AcceptUni]], 26),
                 ("bidi-open-ended", [vec![OpenBi, Write { slot: 0, n: 2 }, Write { slot: 0, n: 1 }, Flush { slot: 0 }], vec![AcceptBi, Write { slot: 0, n: 2 }, Flush { slot: 0 }]], 30),
+                // a zero-length write hands over nothing and must not disturb completion
+                ("uni-empty-write", [vec![OpenUni, Write { slot: 0, n: 2 }, Write { slot: 0, n: 0 }, Shutdown { slot: 0 }], vec![AcceptUni]], 26),
                 ("reset", [vec![OpenBi, Write { slot: 0, n: 3 }, Cancel { slot: 0, code: 7 }], vec![AcceptBi, Write { slot: 0, n: 2 }, Shutdown { slot: 0 }]], 1200),
                 ("stop", [vec![OpenUni, Write { slot: 0, n: 2 }, Write { slot: 0, n: 1 }, Shutdown { slot: 0 }], vec![AcceptUni, Stop { slot: 0, code: 9 }]], 64),
             ];
